@@ -97,15 +97,19 @@ class Real:
         pt = self.pt
         out = []
 
-        def site(text):
-            """the line to decode for the first constant load of `text` (block references resolved through the block)"""
+        def site(text, n=0):
+            """the line to decode for the n-th constant load of `text` (block references resolved through the block)"""
             ls = text.split("\n")[1:]
-            first = [x for x in ls if not x.startswith(("intcblock", "bytecblock"))][0]
+            loads = [x for x in ls if x.split(" ")[0] in ("int", "byte", "addr", "method", "pushint", "pushbytes", "intc", "bytec")
+                     or x.split(" ")[0][:-1] in ("intc_", "bytec_")]
+            first = loads[n]
             op = first.split(" ")[0]
             if op.startswith(("intc", "bytec")):
                 is_int = op.startswith("intc")
                 blk = [x for x in ls if x.startswith("intcblock " if is_int else "bytecblock ")][0].split(" ")
                 idx = int(first.split(" ")[1]) if op in ("intc", "bytec") else int(op[-1])
+                if 1 + idx >= len(blk):
+                    return "block", f"int -1  // reference {idx} outside the block of {len(blk) - 1} entries"
                 return "block", ("int " if is_int else "byte ") + blk[1 + idx]
             return "push", first
 
@@ -114,6 +118,15 @@ class Real:
             out.append(("once:%s" % site(t1)[0], site(t1)[1]))
             t2 = pt.compileTeal(pt.Seq(pt.Pop(mk()), pt.Pop(mk()), pt.Int(1)), pt.Mode.Application, version=6, assembleConstants=True)
             out.append(("twice:%s" % site(t2)[0], site(t2)[1]))
+            # among other constants: four frequent small ints, a repeated small int ranked after them (left out of the block),
+            # repeated large ints and byte strings around the literal under test (loads 12 and 13 of the program)
+            I, By = pt.Int, pt.Bytes
+            before = [I(1)] * 3 + [I(0)] * 3 + [I(2)] * 2 + [I(3)] * 2 + [I(7)] * 2
+            after = [I(9), I(9), I(100000), I(100000), By("zz"), By("zz"), By("base16", "00ff"), By("base16", "00ff"), I(2 ** 40), I(2 ** 40)]
+            t3 = pt.compileTeal(pt.Seq(*[pt.Pop(x) for x in before], pt.Pop(mk()), pt.Pop(mk()), *[pt.Pop(x) for x in after], pt.Int(1)),
+                                pt.Mode.Application, version=6, assembleConstants=True)
+            for n in (12, 13):
+                out.append(("pool:%s" % site(t3, n)[0], site(t3, n)[1]))
         except Exception as ex:  # noqa: BLE001
             out.append(("error", type(ex).__name__ + ": " + str(ex)[:120]))
         return out
